@@ -15,6 +15,30 @@ fn splits(r: &mut Rng, width: usize, th: bool) -> Vec<Vec<usize>> {
         128 => { v.push(vec![64, 64]); v.push(vec![16; 8]); v.push(vec![1, 63, 64]); v.push(vec![32, 32, 64]); v.push(vec![64, 1, 63]); }
         _ => { v.push(vec![64, 64, 64, 64]); v.push(vec![32; 8]); v.push(vec![64, 64, 64, 32, 32]); v.push(vec![1, 63, 64, 64, 64]); }
     }
+    // structured splits: first = last = mean with an uneven middle; palindromes; every rotation of one multiset;
+    // maximal entries with a small remainder; a single large entry anywhere
+    {
+        let mut extra: Vec<Vec<usize>> = vec![];
+        for m in [4usize, 8] {
+            if width % m == 0 && width / m <= 64 && width / m >= 2 {
+                let mean = width / m;
+                let mut p = vec![mean; m];
+                // middle entries shifted by -d / +d pairwise
+                let d = (mean / 2).max(1).min(64 - mean.min(63));
+                if d > 0 && mean > d { p[1] -= d; p[2] += d; v.push(p.clone()); }
+                if m == 8 && mean > 1 && mean < 64 { let mut q = vec![mean; m]; q[1] = 1; q[2] = 2 * mean - 1; if q[2] <= 64 { extra.push(q); } }
+            }
+        }
+        match width {
+            64 => { extra.push(vec![16, 32, 16]); extra.push(vec![32, 16, 16]); extra.push(vec![8, 24, 24, 8]); extra.push(vec![2, 62]); extra.push(vec![4, 4, 56]); extra.push(vec![21, 21, 22]); }
+            128 => { extra.push(vec![64, 63, 1]); extra.push(vec![32, 64, 32]); extra.push(vec![2, 62, 64]); extra.push(vec![48, 32, 48]); }
+            _ => { extra.push(vec![64, 64, 64, 63, 1]); extra.push(vec![64, 32, 64, 32, 64]); extra.push(vec![48, 64, 32, 64, 48]); extra.push(vec![2, 62, 64, 64, 64]); }
+        }
+        let keep = if th { extra.len() } else { 4.min(extra.len()) };
+        // rotate which structured splits the quick tier sees with the seed
+        let start = if extra.is_empty() { 0 } else { (r.below(extra.len() as u64)) as usize };
+        for i in 0..keep { v.push(extra[(start + i) % extra.len()].clone()); }
+    }
     // random admissible splits
     for _ in 0..(if th { 12 } else { 2 }) {
         let m = 1 + r.below(8) as usize;
@@ -230,6 +254,18 @@ pub fn gen_c04(o: &mut Out, tier: &str, sd: u64) {
                         let mut m = bytes.clone(); m[f..f + 32].copy_from_slice(&n);
                         o.op_exp("bytes.z+k*ell", "R", &format!("verify range{} {}", w, hex(&m)));
                     }
+                }
+            }
+            // every scalar field just above the group order (proof re-generated until that scalar is below 2^248)
+            for f in [264 + 128, 264 + 160, 264 + 192, plen - 64, plen - 32] {
+                let mut make = || -> Option<Vec<u8>> {
+                    let st = statement(&mut r, &bls);
+                    let a = format!("{} {}", w, st.args());
+                    let av: Vec<&str> = a.split_whitespace().collect();
+                    match crate::range::construct(&av) { Some(Ok(b)) => Some(b), _ => None }
+                };
+                if let Some(m) = crate::gen_sigma::plus_ell_small(&mut make, f) {
+                    o.op_exp("bytes.z+ell.just-above-order", "R", &format!("verify range{} {}", w, hex(&m)));
                 }
             }
             for (_, sv) in crate::gen_sigma::special_values().iter() {
